@@ -65,6 +65,30 @@ class Parser(object):
         print(self.parse(s))
 
 
+class BlankLed(list):
+    """ A sequence of arguments or array items with blank slots in front of it that are not written
+    out yet: the rule that puts a blank in front of a sequence is right-recursive, and writing every
+    blank out at once (a copy of the list per blank) made a run of n separators cost n * n. """
+    lead = 0
+
+    @classmethod
+    def one_more(cls, seq):
+        if not isinstance(seq, cls):
+            seq = cls(seq)
+        seq.lead += 1
+        return seq
+
+    def written_out(self):
+        return [None] * self.lead + list(self)
+
+
+def written_out(p):
+    """ the sequences among the symbols of a production, with their leading blanks written out """
+    for i in range(1, len(p)):
+        if isinstance(p[i], BlankLed):
+            p[i] = p[i].written_out()
+
+
 class FormulaParser(Parser):
 
     def p_expressions(self, p):
@@ -141,6 +165,7 @@ class FormulaParser(Parser):
                    | FUNCTION LPAREN expseqsemicolon RPAREN
                    | FUNCTION LPAREN expseqbackslash RPAREN
         """
+        written_out(p)
         p[0] = self.call_function(p[1], p[3])
 
     def p_expression_array(self, p):
@@ -156,6 +181,7 @@ class FormulaParser(Parser):
               | LBRACKET expseqbackslash RBRACKET
               | LBRACKET expseqrows RBRACKET
         """
+        written_out(p)
         p[0] = p[2]
 
     def p_expseq_rows(self, p):
@@ -168,6 +194,7 @@ class FormulaParser(Parser):
                    | expseqrows SEMICOLON expseqbackslash
         """
         # an array of three and more rows (two rows are an expseqsemicolon)
+        written_out(p)
         if len(p) == 6:
             p[0] = [p[1], p[3], p[5]]
         elif len(p) == 5:  # two rows and a trailing separator: an empty slot, as in a flat array
@@ -193,11 +220,13 @@ class FormulaParser(Parser):
             if p[1] == ';' and p[2] == ';':
                 p[0] = [None, None, None]
             elif p[1] == ';':
-                p[0] = [None] + p[2]
+                p[0] = BlankLed.one_more(p[2])
             else:
+                written_out(p)
                 p[1].extend([None])  # in place: a copy per item made long lists quadratic
                 p[0] = p[1]
         elif p[2] == ';':
+            written_out(p)
             if len(p) == 5:  # two separators: an empty slot
                 p[1].extend([None, p[4]])  # in place: a copy per item made long lists quadratic
                 p[0] = p[1]
@@ -223,11 +252,13 @@ class FormulaParser(Parser):
             if p[1] == ',' and p[2] == ',':
                 p[0] = [None, None, None]
             elif p[1] == ',':
-                p[0] = [None] + p[2]
+                p[0] = BlankLed.one_more(p[2])
             else:
+                written_out(p)
                 p[1].extend([None])  # in place: a copy per item made long lists quadratic
                 p[0] = p[1]
         elif p[2] == ',':
+            written_out(p)
             # expseqcomma COMMA COMMA expression
             if len(p) == 5:  # e.g. an empty function argument
                 p[1].extend([None, p[4]])  # in place: a copy per item made long lists quadratic
@@ -251,11 +282,13 @@ class FormulaParser(Parser):
             if p[1] == '\\' and p[2] == '\\':
                 p[0] = [None, None, None]
             elif p[1] == '\\':
-                p[0] = [None] + p[2]
+                p[0] = BlankLed.one_more(p[2])
             else:
+                written_out(p)
                 p[1].extend([None])  # in place: a copy per item made long lists quadratic
                 p[0] = p[1]
         elif p[2] == '\\':
+            written_out(p)
             if len(p) == 5:  # two separators: an empty slot
                 p[1].extend([None, p[4]])  # in place: a copy per item made long lists quadratic
                 p[0] = p[1]
